@@ -35,7 +35,7 @@ func c09Gen(r *Rand, tier string, scale int, emit func(Fields)) {
 		if tier == "thorough" && r.Chance(20) {
 			total = r.Range(500, 3000)
 		}
-		f := F(ns, procs[r.Intn(len(procs))], r.Intn(4))
+		f := F(ns, procs[r.Intn(len(procs))], r.Intn(5))
 		for s := 0; s < ns; s++ {
 			cnt := total / ns
 			if s == 0 {
@@ -74,7 +74,13 @@ func c09Exec(in Fields) Fields {
 		}
 		issued = append(issued, ls)
 	}
-	ws := NewWireSession(nil)
+	var tweak func(*client.Config)
+	if pace == 4 {
+		// a short Config.Timeout: it governs dialling only, so a server that stalls for
+		// longer than that in the middle of a line must not change a byte on the wire
+		tweak = func(cfg *client.Config) { cfg.Timeout = 12 * time.Millisecond }
+	}
+	ws := NewWireSession(tweak)
 	defer ws.Close()
 	pr := &Rand{s: uint64(ns*1000003 + procs*101 + pace)}
 	var pmu sync.Mutex
@@ -98,6 +104,22 @@ func c09Exec(in Fields) Fields {
 				time.Sleep(200 * time.Microsecond)
 			}
 			return 1 + pr.Intn(16)
+		}
+	case 4: // takes a few bytes, then stalls for several Config.Timeouts (at most 8 stalls)
+		stalls, pending := 0, false
+		ws.Pace = func() int {
+			pmu.Lock()
+			defer pmu.Unlock()
+			if pending { // the previous read took only part of what the client is writing
+				pending = false
+				time.Sleep(30 * time.Millisecond)
+			}
+			if stalls < 8 && pr.Chance(25) {
+				stalls++
+				pending = true
+				return 1 + pr.Intn(12)
+			}
+			return 1 + pr.Intn(700)
 		}
 	}
 	// a third of the senders run as handlers (foreground or background) triggered by a line
